@@ -124,7 +124,22 @@ prop('C13', level='other', design_ref='DESIGN.md section 6 (C13)',
                'expect_kf': 'KF-C13-1', 'what': 'probe of the listed known finding', 'bound': '1 case'}],
      not_decided=['OnDiskBlock generators are not under deductive contract'], assumptions=[])
 
-for _pid in ['C01', 'C02', 'C03', 'C04', 'C05', 'C07', 'C08', 'C09', 'C10', 'C11', 'C14']:
+prop('C02', level='other', design_ref='DESIGN.md section 6 (C02)',
+     technique='deductive verification of the history read path (VCs from real source, z3/cvc5) + bounded native '
+               'comparison of whole-index histories with an independent oracle',
+     text='get_txnums (limit semantics), chunks, resolve_limit, fs_tx_hash (true height by bisect), fs_tx_hashes_at_blockheight '
+          'are proved; the write path (add_unflushed/flush through advance_block) is exercised by the bounded stand-in.',
+     note='Trusted: T-LDB, T-FILE, T-STRUCT; layout invariant "history rows are arrays of 5-byte numbers". Bounded: generated chains '
+          'x random flush schedules x restart.',
+     explanation='Read path deductive; write path bounded (labelled).',
+     bounded=[{'obligation': 'index.c02.bounded', 'driver': 'index_scenario.py', 'request': {'mode': 'c02', 'rounds': 10},
+               'what': 'every script hash history (all limits) and tx-number -> (hash, height) equal the clean index',
+               'bound': '10 (thorough: 60) generated chains of 3-13 blocks x random history-only/full flush schedule x chunk '
+                        'sizes {90, 200, 1000, 25M} x restart'}],
+     not_decided=['History.add_unflushed / flush / advance_block history clause not under deductive contract yet'],
+     assumptions=[])
+
+for _pid in ['C01', 'C03', 'C04', 'C05', 'C07', 'C08', 'C09', 'C10', 'C11', 'C14']:
     na(_pid, 'contracts for this property are not yet built in this round (planned: DESIGN.md section 6); nothing is claimed')
 na('C06', 'quantifies over cancellation instants of an asyncio task while worker-thread jobs keep running: not '
           'expressible as pre/postconditions of functions in a sequential or cooperative model (DESIGN.md section 6, C06)')
